@@ -73,10 +73,11 @@
   (def [kind] op)
   (defn start [& xs] (print "E " name " " idx " " kind " start " (string/join (map string xs) " ")) (flush))
   (defn fin [& xs] (print "E " name " " idx " " kind " end " (string/join (map string xs) " ")) (flush))
-  (defn guarded [s dir n thunk]
-    (note "op" s kind dir n name idx)
+  (defn guarded [s dir n thunk &opt sub]
+    (def id (if sub (string idx "." sub) idx))
+    (note "op" s (if sub (get op 3) kind) dir n name id)
     (def res (try [:ok (thunk)] ([err] [:err err])))
-    (note "end" name idx (res 0))
+    (note "end" name id (res 0))
     res)
   (defn do-read []
     (let [[_ i e n] op
@@ -106,7 +107,7 @@
              (var going true)
              (while going
                (print "E " name " " idx "." k " " mode " start " i " " e " " n) (flush)
-               (def [st v] (guarded s "r" n (fn [] (one-read f i e n true false))))
+               (def [st v] (guarded s "r" n (fn [] (one-read f i e n true false)) k))
                (print "E " name " " idx "." k " " mode " end " st " " (if (= st :ok) (res-str v) (string/replace-all "\n" " " (string v)))) (flush)
                (++ k)
                (when (or (= st :err) (nil? v)) (set going false)))
